@@ -391,4 +391,10 @@ func H_C02_Doc() {
 	}
 	rt.Assert(rt.And(again.Metadata.Id == got.Metadata.Id, again.Metadata.Version == got.Metadata.Version,
 		len(again.Metadata.DocumentTypes) == len(got.Metadata.DocumentTypes)), "C02.doc.idempotent")
+	if len(again.Metadata.DocumentTypes) == len(got.Metadata.DocumentTypes) {
+		for i, g := range got.Metadata.DocumentTypes {
+			a := again.Metadata.DocumentTypes[i]
+			rt.Assert((a.Type == nil) == (g.Type == nil) && (g.Type == nil || *a.Type == *g.Type), "C02.doc.idempotent.lifecycles")
+		}
+	}
 }
